@@ -610,6 +610,147 @@ def terminated_byte_accounting(W, rec, rng):
                             return
 
 
+def limits_reconfigured_after_reading(W, rec, rng):
+    """History on one request: a hook reads some bytes of a server-terminated stream, the view then sets its own
+    max_content_length (documented per-request configuration), then the form is parsed.  Whatever limit ends up applying,
+    no more bytes leave the server's input than the larger of the two limits that were ever configured."""
+    from werkzeug.exceptions import HTTPException
+
+    Request = W["Request"]
+    for first in (50, 200, None):
+        for already in (0, 10, 40):
+            for final in (20, 50, 60, 300, None):
+                for extra in (1, 25, 45, 400):
+                    for cls in (Short, ReadOnly):
+                        if first is None and final is None:
+                            continue
+                        cap = max(x for x in (first, final) if x is not None) if None not in (first, final) else None
+                        n = (final if final is not None else first) + extra
+                        body = (b"a=" + b"x" * n)[:n]
+                        st = cls(body, rng.choice([3, 7, 64, 100000]))
+                        env = {"REQUEST_METHOD": "POST", "wsgi.input": st, "CONTENT_TYPE": "application/x-www-form-urlencoded", "wsgi.url_scheme": "http", "SERVER_NAME": "h",
+                               "SERVER_PORT": "80", "PATH_INFO": "/", "SCRIPT_NAME": "", "QUERY_STRING": "", "wsgi.input_terminated": True}
+
+                        class R(Request):
+                            max_content_length = first
+
+                        case = {"path": "limit-reconfigured-after-reading", "first_limit": first, "read_before": already, "final_limit": final, "body_len": n, "input": cls.__name__}
+                        rec.case()
+                        rec.nontrivial(("reconfigured", first, already, final, n, cls.__name__))
+                        rec.observe("requests_reconfigured_after_reading")
+                        r = R(env)
+                        try:
+                            if already:
+                                r.stream.read(already)
+                            r.max_content_length = final
+                            r.form, r.files  # noqa: B018
+                        except HTTPException:
+                            pass
+                        if cap is not None and st.total > cap:
+                            rec.violation("C10/E2-terminated-stream-read-past-max_content_length", f"{st.total} bytes left the server's input; max_content_length was {first}, {already} bytes were read, then it was set to {final}; {case}", case, monitor="byte-accounting")
+                            return
+
+
+def concurrent_limited_requests(W, rec, rng):
+    """Schedule: several requests are parsed at the same time on threads of one process, each through its own
+    LimitedStream (Content-Length smaller than the parser's read size, so every read is clamped to the remaining limit)
+    over a server input with readinto().  Yields are injected at every line of LimitedStream's read methods.  Each
+    request's form and files are its own bytes - identical to parsing that body alone and without limits (E3)."""
+    import sys
+    import threading
+    import time as _time
+
+    from werkzeug import wsgi
+
+    Request = W["Request"]
+    mon = sys.monitoring
+    TOOL = 5
+    try:
+        mon.use_tool_id(TOOL, "verif-yield-c10")
+    except ValueError:
+        return
+    inj = [0]
+
+    def on_line(code, line):
+        inj[0] += 1
+        _time.sleep(0)
+
+    codes = [f.__code__ for f in vars(wsgi.LimitedStream).values() if hasattr(f, "__code__")]
+    mon.register_callback(TOOL, mon.events.LINE, on_line)
+    for c in codes:
+        mon.set_local_events(TOOL, c, mon.events.LINE)
+    old_si = sys.getswitchinterval()
+    sys.setswitchinterval(1e-5)
+
+    class Slow(io.RawIOBase):
+        """a socket-like input: readinto() hands out a few bytes and lets other threads run, as a blocking recv does"""
+
+        def __init__(self, d, k):
+            self.d, self.k, self.pos = d, k, 0
+
+        def readable(self):
+            return True
+
+        def readinto(self, b):
+            out = self.d[self.pos:self.pos + min(len(b), self.k)]
+            b[:len(out)] = out
+            self.pos += len(out)
+            _time.sleep(0)
+            return len(out)
+
+    NT = 4
+    try:
+        for rnd in range(6):
+            kind = ("multipart", "urlencoded")[rnd % 2]
+            bodies, expect = [], []
+            for i in range(NT):
+                tag = b"%c" % (65 + i)
+                if kind == "multipart":
+                    parts = [("field", b"n%d" % j, tag * rng.randint(20, 120)) for j in range(3)] + [("file", b"up", tag * rng.randint(50, 300))]
+                    bodies.append(mkbody(parts))
+                    expect.append(([(p[1].decode(), p[2].decode()) for p in parts if p[0] == "field"], [(p[1].decode(), p[2]) for p in parts if p[0] == "file"]))
+                else:
+                    pairs = [("n%d" % j, (tag * rng.randint(20, 200)).decode()) for j in range(4)]
+                    bodies.append("&".join(f"{a}={v}" for a, v in pairs).encode())
+                    expect.append((pairs, []))
+            res = [None] * NT
+            start = threading.Barrier(NT)
+            mcl = rng.choice([None, 100000])
+
+            def work(i):
+                body = bodies[i]
+                env = {"REQUEST_METHOD": "POST", "wsgi.input": Slow(body, rng.choice([7, 33, 64])), "CONTENT_LENGTH": str(len(body)), "wsgi.url_scheme": "http", "SERVER_NAME": "h", "SERVER_PORT": "80",
+                       "PATH_INFO": "/", "SCRIPT_NAME": "", "QUERY_STRING": "",
+                       "CONTENT_TYPE": ("multipart/form-data; boundary=" + BND.decode()) if kind == "multipart" else "application/x-www-form-urlencoded"}
+                r = Request(env)
+                r.max_content_length = mcl
+                start.wait()
+                try:
+                    res[i] = ([(a, v) for a, v in r.form.items(multi=True)], [(a, f.read()) for a, f in r.files.items(multi=True)])
+                except Exception as e:  # noqa: BLE001
+                    res[i] = ("EXC", type(e).__name__, str(e)[:100])
+
+            ths = [threading.Thread(target=work, args=(i,)) for i in range(NT)]
+            for t_ in ths:
+                t_.start()
+            for t_ in ths:
+                t_.join(60)
+            rec.case()
+            rec.nontrivial(("concurrent-limited", kind, rnd, mcl))
+            rec.observe("concurrent_limited_request_rounds")
+            for i in range(NT):
+                if res[i] != expect[i]:
+                    case = {"path": "concurrent-limited-requests", "kind": kind, "threads": NT, "max_content_length": mcl}
+                    rec.violation("C10/E3-limits-changed-the-result", f"request {i} of {NT} parsed at the same time, each behind its own LimitedStream: got {str(res[i])[:200]}, its own body holds {str(expect[i])[:200]}; {case}", case, monitor="E3")
+                    return
+    finally:
+        sys.setswitchinterval(old_si)
+        for c in codes:
+            mon.set_local_events(TOOL, c, 0)
+        mon.free_tool_id(TOOL)
+        rec.observe("concurrent_limited_injected_yields", inj[0])
+
+
 def run(shard, rec, rng):
     W = world()
     from werkzeug import wsgi
@@ -634,6 +775,10 @@ def run(shard, rec, rng):
         contracts.LOG.take()
     if shard["index"] % 4 == 1:
         terminated_byte_accounting(W, rec, rng)
+    if shard["index"] % 4 == 2:
+        limits_reconfigured_after_reading(W, rec, rng)
+    if shard["index"] % 4 == 3:
+        concurrent_limited_requests(W, rec, rng)
     for i in range(cfg["request"]):
         check_request(W, rec, rng)
     rec.sample({"path": "MultiPartParser", "parts": [["field", "n0", "64 bytes"], ["file", "n1", "65 bytes"]], "mem": 64, "max_parts": 2, "buffer_size": 63, "short": 2})
